@@ -17,9 +17,9 @@ import (
 func orphanCase() concCase {
 	c := concCase{Backends: 1, MaxIdle: 3}
 	for a := 0; a < 8; a++ {
-		c.Scripts = append(c.Scripts, []actorOp{{"put-fresh", 0}, {"put-fresh", 0}, {"put-fresh", 0}, {"put-fresh", 0}})
+		c.Scripts = append(c.Scripts, []actorOp{{Op: "put-fresh", B: 0}, {Op: "put-fresh", B: 0}, {Op: "put-fresh", B: 0}, {Op: "put-fresh", B: 0}})
 	}
-	c.Scripts = append(c.Scripts, []actorOp{{"get", 0}, {"shutdown", 0}})
+	c.Scripts = append(c.Scripts, []actorOp{{Op: "get", B: 0}, {Op: "shutdown", B: 0}})
 	return c
 }
 
